@@ -163,6 +163,19 @@ func (v *FnVC) callCommon(c *ssa.CallCommon, val ssa.Value, pos token.Pos, how s
 		v.assume(v.rangeOf(r.S, r.T))
 		v.assume(v.allocated(r))
 	}
+	if fc.Pure && len(results) == 1 {
+		// link the call to the uninterpreted function used for it in specifications
+		if fn := v.w.funcs[key]; fn != nil {
+			var as []string
+			for _, a := range args {
+				as = append(as, a.S)
+			}
+			name := v.w.pureFn(key, fn)
+			if len(as) > 0 {
+				v.assume(fmt.Sprintf("(= %s (%s %s))", results[0].S, name, strings.Join(as, " ")))
+			}
+		}
+	}
 	for _, cl := range fc.Clauses {
 		if cl.Kind != "ensures" {
 			continue
